@@ -108,7 +108,13 @@ def impl_pid_cases(payload):
         fl = dict(zip(FLAGS, c['flags']))
         try:
             if c['mode'] == 'kernel':  # the way compaso_halo_catalog drives the kernel: caller-owned arrays
-                arr = bp.empty_bitpacked_arrays(len(packed), [k for k in FLAGS if fl[k]], float_dtype=dt)
+                names = [k for k in FLAGS if fl[k]]
+                # every documented form of unpack_bits: True (all fields + the raw word), False (pid only), a name, a list
+                bits = True if len(names) == 5 else False if names == ['pid'] else names[0] if len(names) == 1 else names
+                arr = bp.empty_bitpacked_arrays(len(packed), bits, float_dtype=dt)
+                raw = arr.pop('packedpid', None)
+                if (raw is not None) != (bits is True) or (raw is not None and (raw.dtype != np.uint64 or raw.shape != (len(packed),))):
+                    arr['unexpected_packedpid'] = np.zeros(0)
                 for v in arr.values():
                     v[...] = 77
                 bp._unpack_pids(packed, c['box'], c['ppd'], float_dtype=dt, **arr)
@@ -205,6 +211,16 @@ def impl_sweeps(payload):
         dt = _np_dtype(dcode)
         arr = bp.unpack_pids(a, box=box, ppd=ppd, pid=True, lagr_pos=True, tagged=True, density=True, lagr_idx=True,
                              float_dtype=dt)
+        want_shape = {'lagr_idx': (len(a), 3), 'lagr_pos': (len(a), 3), 'tagged': (len(a),), 'density': (len(a),),
+                      'pid': (len(a),)}
+        wrong = [k for k in want_shape if k not in arr or arr[k].shape != want_shape[k]] + sorted(set(arr) - set(want_shape))
+        if wrong:
+            res['aux_runs'] += 1
+            if len(res['fail']) < 6:
+                res['fail'].append({'kind': 'aux', 'field': 'selection', 'word': int(a[0]), 'box': box, 'ppd': ppd,
+                                    'dtype': dcode, 'got': f'columns missing/misshapen/unexpected: {wrong}', 'sweep': tag,
+                                    'nbad': len(a)})
+            return
         f = {nm: (a // U(2 ** sh)) % U(2 ** wd) for nm, sh, wd in fields}
         idx = np.stack([f['x'], f['y'], f['z']], axis=1).astype(np.int64)
         exp = {'lagr_idx': idx, 'tagged': f['t'].astype(np.int64), 'density': (f['d'].astype(np.int64)) ** 2,
@@ -528,24 +544,38 @@ def pid_judge(c, got):
 
 
 def shrink_rv(ctx, c):
-    """A failing multi-row case -> the first single row that still fails, if any."""
-    for row in c['words']:
-        c1 = dict(c, words=[row])
-        g = ctx.run_impl('harness.c04', 'impl_rv_cases', {'cases': [c1]})[0]
-        if rv_judge(c1, g)[1]:
-            return c1, g
-        if c['words'].index(row) > 40:
-            break
+    """A failing multi-row case -> the first single row that still fails, if any (one batched implementation run)."""
+    cands = [dict(c, words=[row]) for row in c['words'][:60]]
+    gots = ctx.run_impl('harness.c04', 'impl_rv_cases', {'cases': cands})
+    for c1, g1 in zip(cands, gots):
+        if rv_judge(c1, g1)[1]:
+            return c1, g1
     return None, None
 
 
 def shrink_pid(ctx, c):
-    for a in c['packed'][:40]:
-        c1 = dict(c, packed=[a])
-        g = ctx.run_impl('harness.c04', 'impl_pid_cases', {'cases': [c1]})[0]
-        if pid_judge(c1, g)[1]:
-            return c1, g
+    cands = [dict(c, packed=[a]) for a in c['packed'][:60]]
+    gots = ctx.run_impl('harness.c04', 'impl_pid_cases', {'cases': cands})
+    for c1, g1 in zip(cands, gots):
+        if pid_judge(c1, g1)[1]:
+            return c1, g1
     return None, None
+
+
+def rv_key(problems):
+    p = ' '.join(problems)
+    if 'pos.idx[' in p or 'pos[' in p:
+        return 'rvint:pos'
+    if 'vel.idx[' in p or 'vel[' in p:
+        return 'rvint:vel'
+    return 'rvint:selection'
+
+
+def pid_key(problems):
+    for k in FLAGS:
+        if any(p.startswith(k + '[') for p in problems):
+            return 'aux:' + k
+    return 'aux:selection'
 
 
 def violation(key, what, inp, got, problems, pred):
@@ -566,22 +596,32 @@ def sweep_fail_to_violation(ctx, f):
              'pc': 0, 'vc': 0, 'extra': 0, 'words': [f['row']]}
         g = ctx.run_impl('harness.c04', 'impl_rv_cases', {'cases': [c]})[0]
         problems = rv_judge(c, g)[1] or [f'bulk sweep {f["sweep"]}: {f["nbad"]} words wrong, first {f}']
-        return violation(f'rvint:{f["field"]}', f'unpack_rvint decodes {f["field"]} of an RVint word wrongly', {'rv': c}, g,
-                         problems, RV_PRED)
+        return violation(rv_key(problems) if rv_judge(c, g)[1] else f'rvint:{f["field"]}',
+                         f'unpack_rvint decodes {f["field"]} of an RVint word wrongly', {'rv': c}, g, problems, RV_PRED)
     exact = {(b, p): e for b, p, e in AUX_SCALES}.get((f['box'], f['ppd']), False)
     c = {'kind': 'fields', 'mode': 'wrapper', 'box': f['box'], 'ppd': f['ppd'], 'exact': exact, 'ppd_float': False,
          'as_list': False, 'dtype': f['dtype'], 'flags': [True] * 5, 'packed': [f['word']]}
     g = ctx.run_impl('harness.c04', 'impl_pid_cases', {'cases': [c]})[0]
     problems = pid_judge(c, g)[1] or [f'bulk sweep {f["sweep"]}: {f["nbad"]} words wrong, first {f}']
-    return violation(f'aux:{f["field"]}', f'unpack_pids decodes {f["field"]} of an aux word wrongly', {'pid': c}, g, problems,
-                     AUX_PRED)
+    return violation(pid_key(problems) if pid_judge(c, g)[1] else f'aux:{f["field"]}',
+                     f'unpack_pids decodes {f["field"]} of an aux word wrongly', {'pid': c}, g, problems, AUX_PRED)
 
 
 def explore(ctx):
     rvc, pidc = rv_cases(ctx), pid_cases(ctx)
-    rv_got = ctx.run_impl('harness.c04', 'impl_rv_cases', {'cases': rvc})
-    pid_got = ctx.run_impl('harness.c04', 'impl_pid_cases', {'cases': pidc})
-    sweep = ctx.run_impl('harness.c04', 'impl_sweeps', sweep_payload(ctx))
+    def guarded(fn, payload):
+        try:
+            return ctx.run_impl('harness.c04', fn, payload)
+        except RuntimeError as e:  # e.g. heap corruption by an out-of-range store: use the bounds-checked reference instead
+            ctx.notes.append(f'{fn}: the implementation process died ({str(e)[:160]!r}); re-run under NUMBA_BOUNDSCHECK=1')
+            return ctx.run_impl('harness.c04', fn, payload, {'NUMBA_BOUNDSCHECK': '1'})
+    rv_got = guarded('impl_rv_cases', {'cases': rvc})
+    pid_got = guarded('impl_pid_cases', {'cases': pidc})
+    try:
+        sweep = ctx.run_impl('harness.c04', 'impl_sweeps', sweep_payload(ctx))
+    except RuntimeError as e:  # the bulk oracle itself died on an unexpected result shape: judged by the case lists below
+        ctx.notes.append(f'bulk sweep aborted: {str(e)[:300]}')
+        sweep = {'rv_words': 0, 'aux_words': 0, 'fail': [], 'rv_runs': 0, 'aux_runs': 0}
     full = None
     if not ctx.quick():
         import concurrent.futures
@@ -605,6 +645,7 @@ def explore(ctx):
             counterexamples.append(v)
 
     rv_terms, rv_owner, pid_terms, pid_owner = [], [], [], []
+    nshrunk, nfailing, tried = [0], 0, set()
     dist = {'rv_cases': len(rvc), 'pid_cases': len(pidc), 'rv_selection_modes': {}, 'pid_flag_subsets': set(), 'dtypes': {},
             'pid_value_errors': 0, 'rv_empty_inputs': 0, 'exact_lattice_cases': 0, 'quantum_cases': 0}
     words_seen, aux_seen = set(), set()
@@ -618,13 +659,15 @@ def explore(ctx):
             for w in row:
                 if w // 4096 not in (0, -1) and w % 4096 != 0:
                     words_seen.add(w)
-        if problems:
+        nfailing += bool(problems)
+        if problems and rv_key(problems) not in tried and nshrunk[0] < 8:
+            nshrunk[0] += 1
+            tried.add(rv_key(problems))
             c1, g1 = shrink_rv(ctx, c) if len(c['words']) > 1 else (None, None)
-            field = 'selection' if c['kind'] == 'selection' and c1 is None else \
-                ('vel' if any(p.startswith('vel') for p in problems) and not any(p.startswith('pos') for p in problems) else 'pos')
-            add(violation(f'rvint:{field}', 'unpack_rvint does not return the documented decoding',
-                          {'rv': c1 or c}, g1 or g, rv_judge(c1, g1)[1] if c1 else problems, RV_PRED))
-        if canon is not None:
+            pr = rv_judge(c1, g1)[1] if c1 else problems
+            add(violation(rv_key(pr), 'unpack_rvint does not return the documented decoding', {'rv': c1 or c}, g1 or g, pr,
+                          RV_PRED))
+        if canon is not None and all(canon[n]['ret'] == 'array' or isinstance(canon[n]['ret'], int) for n in ('pos', 'vel')):
             rv_terms.append(coqio.tup([rv_term(c), rv_val(canon)]))
             rv_owner.append(i)
     for i, (c, g) in enumerate(zip(pidc, pid_got)):
@@ -636,11 +679,14 @@ def explore(ctx):
             if sum(1 for sh, wd in [(0, 15), (16, 15), (32, 15), (48, 1), (49, 10)] if (a >> sh) & (2 ** wd - 1)) >= 2 \
                     and a & 0xF800800080008000:
                 aux_seen.add(a)
-        if problems:
+        nfailing += bool(problems)
+        if problems and pid_key(problems) not in tried and nshrunk[0] < 8:
+            nshrunk[0] += 1
+            tried.add(pid_key(problems))
             c1, g1 = shrink_pid(ctx, c) if len(c['packed']) > 1 else (None, None)
-            fld = next((k for k in FLAGS if any(p.startswith(k) for p in problems)), 'selection')
-            add(violation(f'aux:{fld}', 'unpack_pids does not return the documented decoding', {'pid': c1 or c}, g1 or g,
-                          pid_judge(c1, g1)[1] if c1 else problems, AUX_PRED))
+            pr = pid_judge(c1, g1)[1] if c1 else problems
+            add(violation(pid_key(pr), 'unpack_pids does not return the documented decoding', {'pid': c1 or c}, g1 or g, pr,
+                          AUX_PRED))
         if c['mode'] in ('wrapper', 'kernel') and canon['class'] in ('ok', 'value_error'):
             pid_terms.append(coqio.tup([pid_term(c), pid_val(canon)]))
             pid_owner.append(i)
@@ -689,7 +735,7 @@ def explore(ctx):
         'input_distribution': dict(dist, bulk_rv_words=sweep['rv_words'], bulk_aux_words=sweep['aux_words'],
                                    bulk_runs=sweep['rv_runs'] + sweep['aux_runs'],
                                    full_2_32_sweep=bool(full)),
-        'mismatches': mismatches, 'counterexamples': counterexamples[:4],
+        'mismatches': mismatches, 'counterexamples': counterexamples[:4], 'explicit_cases_failing_the_oracle': nfailing,
         'float_residual': 'exact-lattice cases: zero residual required; other scales: |value/quantum - integer| <= 1/16 (float32), '
                           '2^-20 (float64)',
     }
